@@ -75,7 +75,14 @@ def run(chk, ctx) -> None:
         if name.startswith('_update_'):
             calls = [c for c in walk_no_nested(fi.node) if isinstance(c, ast.Call) and self_attr(c.func) == '_update']
             ok = len(calls) == 1 and len(calls[0].args) == 1 and isinstance(calls[0].args[0], ast.Name) and calls[0].args[0].id == 'operation'
-            chk.ob('C15.log', f'State.{name}', ok, fi.loc, 'every phase update forwards the record it was given to the log exactly once')
+            every = True
+            for p in ctx.paths(fi):
+                first_log = next((k for k, e in enumerate(p.events) if e.kind == 'call' and e.value == ('self', '_update')), None)
+                first_other = next((k for k, e in enumerate(p.events) if e.kind in ('write',) or (e.kind == 'call' and e.value[0] == 'self' and e.value[1] != '_update')), None)
+                if first_log is None or (first_other is not None and first_other < first_log):
+                    every = False
+            chk.ob('C15.log', f'State.{name}', ok and every, fi.loc,
+                   'every phase update forwards the record it was given to the log exactly once, on every path and before anything else happens')
     chk.floor('C15.log', 11)
 
     # ------------------------------------------------------------------ record
